@@ -170,6 +170,35 @@ lib_fini(bool report)
 	nlisten = 0;
 }
 
+// statistics snapshot walk (op `stats`): visit every node, read every accessor
+static unsigned
+stat_walk(const nng_stat *st)
+{
+	unsigned n = 0;
+	for (; st != NULL; st = nng_stat_next(st)) {
+		volatile uint64_t sink = 0;
+		const char       *s;
+		n++;
+		sink += strlen(nng_stat_name(st));
+		sink += strlen(nng_stat_desc(st));
+		sink += (uint64_t) nng_stat_unit(st) + nng_stat_timestamp(st);
+		switch (nng_stat_type(st)) {
+		case NNG_STAT_STRING:
+			s = nng_stat_string(st);
+			sink += s != NULL ? strlen(s) : 0;
+			break;
+		case NNG_STAT_BOOLEAN:
+			sink += nng_stat_bool(st) ? 1 : 0;
+			break;
+		default:
+			sink += nng_stat_value(st);
+			break;
+		}
+		n += stat_walk(nng_stat_child(st));
+	}
+	return (n);
+}
+
 #include <signal.h>
 #include <unistd.h>
 // watchdog: one harness line never needs more than a few milliseconds of CPU; if a line
@@ -237,6 +266,18 @@ main(void)
 			unsigned long live, bytes, bad, tot;
 			valloc_stats(&live, &bytes, &bad, &tot);
 			printf("allocs total=%lu fired=%lu\n", tot, valloc_failures_fired());
+			continue;
+		}
+		if (IS("stats")) {
+			// statistics snapshot: nng_stats_get, walk the whole tree, nng_stats_free
+			nng_stat *st = NULL;
+			int       rv = nng_stats_get(&st);
+			unsigned  n  = 0;
+			if (rv == 0) {
+				n = stat_walk(st);
+				nng_stats_free(st);
+			}
+			printf("stats %d %u\n", rv, n);
 			continue;
 		}
 		if (IS("sched") && vn >= 2) {
